@@ -79,7 +79,8 @@ Example C09_nonvacuous :
     chunk_read (w_stored st') [RGive 1; RIntr; RGive 3] = map CItem items.
 Proof.
   split; [repeat constructor; vm_compute; reflexivity|].
-  eexists. split; vm_compute; reflexivity.
+  exists (fst (dump (mkW [] [WAccept 2; WIntr; WAccept 1]) [[]; [1; 2; 3]; repeat 7 300])).
+  split; vm_compute; reflexivity.
 Qed.
 
 (* ---- merged from C09b.v ---- *)
@@ -202,6 +203,6 @@ Example C09_truncated_nonvacuous :
   chunk_read_buffered (firstn 332 (frames items)) [] = map CItem items.
 Proof.
   cbv zeta. split; [repeat constructor; vm_compute; reflexivity|].
-  repeat split; vm_compute; reflexivity.
+  repeat match goal with |- _ /\ _ => split end; vm_compute; reflexivity.
 Qed.
 Print Assumptions C09_truncated_nonvacuous.
